@@ -134,6 +134,18 @@ def gen_c01(tier, seed):
                 else:
                     kw['micro'] = False
                 add(call('make', gen.content_for_mode(r, mode, n), **kw))
+    # (d'''') a little more than the requested version and level hold: refused - and if a symbol is returned nevertheless, it is judged
+    for v in ((-2, -1, 0, 1, 2, 3, 10) if not thorough else ALLV):
+        for e in T.levels_of(v):
+            for mode in ('byte', 'numeric', 'alphanumeric'):
+                if T.ccbits(v, mode) < 0:
+                    continue
+                for d in (1, 2, 3):
+                    n = T.max_chars(v, e, mode) + d
+                    kw = {'version': T.version_name(v), 'boost_error': r.choice((True, False))}
+                    if e != '-':
+                        kw['error'] = e
+                    add(call('make', gen.content_for_mode(r, mode, n), **kw))
     # (e) hanzi
     for n in list(range(1, 13)) + [20, 50]:
         for e in QR_LEVELS if thorough else ('L', 'Q'):
